@@ -95,9 +95,10 @@ def check_query(sql, tags, dbs, duck, res, record, full_api_on=()):
             try:
                 r2 = execute(sql, schema=SCHEMA, tables=to_tables({t: data.get(t, []) for t in SCHEMA}))
                 if (list(r2.columns), oe.norm_rows(r2.rows)) != (cols, oe.norm_rows(rows)):
-                    raise HarnessError(f"plan-once seam differs from execute() on {sql!r}")
-            except HarnessError:
-                raise
+                    # two plans of the same query over the same data disagree with each other (a plan whose result depends on
+                    # the iteration order of its steps): one of the two answers is wrong whatever the engines say
+                    record(f"plans_disagree|{'+'.join(tags)}", tags, sql, data,
+                           f"execute() returned {oe.norm_rows(r2.rows)[:6]}, a second plan of the same query returned {oe.norm_rows(rows)[:6]}")
             except Exception:
                 pass
         s = oe.Sqlite({t: SCHEMA[t] for t in tables}, data)
